@@ -698,7 +698,7 @@ class IndexLevel:
             {compare_class}
             {skipna}
         '''
-        if id(other) == id(self):
+        if skipna and id(other) == id(self):
             return True
 
         if compare_class and self.__class__ != other.__class__:
